@@ -115,12 +115,24 @@ class PropertyVal(object):
 
 class Obj(object):
     """Instance of an interpreted class (or a plain record when cls is None)."""
+    _serial = [0]
+
     def __init__(self, cls=None, **fields):
         self.cls = cls
         self.fields = dict(fields)
+        Obj._serial[0] += 1
+        self.serial = Obj._serial[0]       # creation order: the deterministic iteration order of sets of objects
 
     def __repr__(self):
         return '<%s %s>' % (self.cls.name if self.cls else 'record', sorted(self.fields))
+
+
+def _order_key(x):
+    if isinstance(x, Obj):
+        return (2, x.serial, '')
+    if isinstance(x, tuple):
+        return (3, 0, repr(tuple(_order_key(y) for y in x)))
+    return (1, 0, repr(x))
 
 
 class ExcClass(object):
@@ -1338,7 +1350,9 @@ class Engine(object):
             try:
                 return sorted(v)
             except TypeError:
-                return list(v)
+                # CPython iterates a set of objects in address order, which differs from run to run; the executor must
+                # take the same decisions when it re-executes a path, so it iterates in creation order
+                return sorted(v, key=_order_key)
         if isinstance(v, NVec):
             return list(v.items)
         if v is None:
